@@ -197,6 +197,17 @@ func (n *LocalNode) RequestToLeave(leaver chord.VNode) error {
 		n.logger.Warn("Rejecting leave request because current state is not Active", zap.String("state", curr.String()))
 		return chord.ErrLeaveInvalidState
 	}
+
+	// a leaving node hands all of its keys to its immediate successor. If another node has joined
+	// between the leaver and us since the leaver last looked at its successor list, we are not the
+	// owner of those keys: release the lock and let the leaver retry with a refreshed successor.
+	// This mirrors the check in RequestToJoin. A cleared predecessor pointer is not a reason to refuse:
+	// a leaver that has already taken its own lock fails our predecessor check until it is gone
+	if pre := n.getPredecessor(); pre != nil && pre.ID() != leaver.ID() {
+		n.logger.Warn("Rejecting leave request because leaver is not our predecessor", zap.Object("leaver", leaver.Identity()))
+		n.state.Set(chord.Active)
+		return chord.ErrLeaveWrongSuccessor
+	}
 	return nil
 }
 
